@@ -6,6 +6,7 @@ package e2
 
 import (
 	"fmt"
+	"sort"
 	"time"
 
 	vs "github.com/theQRL/go-qrllib/verifsched"
@@ -23,13 +24,70 @@ type point struct {
 	runEn   bool
 }
 
+// Pt is the part of a decision point the explorer needs (also what a sub-process execution reports).
+type Pt struct {
+	N     int  `json:"n"`  // number of enabled threads
+	RunEn bool `json:"re"` // the last-run thread is still enabled (choosing another one is a preemption)
+}
+
 type Exec struct {
 	Choices  []int
 	points   []point
+	Pts      []Pt
 	Results  []string
 	Deadlock bool
 	Horizon  bool
 	Events   int
+	// Acc[var] = per-thread access bits (1 read, 2 write) observed in this execution
+	Acc        map[string][]uint8
+	PointsSeen int64
+	Err        string
+}
+
+// Backend executes the scenario once from its initial state, following prefix (then choice 0),
+// with scheduler control at the given conflict variables (and at every lock operation).
+type Backend func(prefix []int, conflict []string) *Exec
+
+// InProcess runs executions in this process (initial state restored by sc.Reset).
+func InProcess(sc *Scenario) Backend {
+	return func(prefix []int, conflict []string) *Exec {
+		for i := range vs.Conflict {
+			vs.Conflict[i] = false
+		}
+		for _, name := range conflict {
+			for id, n := range vs.VarNames {
+				if n == name && id < vs.MaxVars {
+					vs.Conflict[id] = true
+				}
+			}
+		}
+		return RunOnce(sc, prefix)
+	}
+}
+
+// RunOnce executes sc once with the conflict set currently installed in the runtime and fills the exported fields.
+func RunOnce(sc *Scenario, prefix []int) *Exec {
+	x := run(sc, prefix)
+	n := len(sc.Bodies)
+	x.Acc = map[string][]uint8{}
+	for id := 0; id < len(vs.VarNames) && id < vs.MaxVars; id++ {
+		var bits []uint8
+		any := false
+		for t := 0; t < n; t++ {
+			bits = append(bits, vs.Acc[t][id])
+			if vs.Acc[t][id] != 0 {
+				any = true
+			}
+		}
+		if any {
+			x.Acc[vs.VarNames[id]] = bits
+		}
+	}
+	for _, p := range x.points {
+		x.Pts = append(x.Pts, Pt{len(p.enabled), p.runEn})
+	}
+	x.PointsSeen = vs.PointsSeen
+	return x
 }
 
 type Stats struct {
@@ -46,6 +104,7 @@ type Stats struct {
 var Progress func()
 
 type Violation struct {
+	Conflict []string
 	Scenario string
 	Choices  []int
 	Results  []string
@@ -150,66 +209,76 @@ func run(sc *Scenario, prefix []int) *Exec {
 
 func (x *Exec) preemptionsBefore(i int) int {
 	n := 0
-	for k := 0; k < i; k++ {
-		if x.points[k].runEn && x.Choices[k] != 0 {
+	for k := 0; k < i && k < len(x.Pts); k++ {
+		if x.Pts[k].RunEn && x.Choices[k] != 0 {
 			n++
 		}
 	}
 	return n
 }
 
-// Explore enumerates all schedules with at most maxBound preemptions; check is called on every execution.
-func Explore(sc *Scenario, maxBound int, expected []string, maxExec int64, budget time.Duration) (*Stats, *Violation) {
+// Explore enumerates all schedules with at most maxBound preemptions (bounds iterated 0,1,..); every
+// execution is checked against `expected`. The conflict set starts empty and grows to a fix point:
+// a variable becomes a scheduling point once two different threads touched it and one of them wrote.
+func Explore(name string, be Backend, maxBound int, expected []string, maxExec int64, budget time.Duration) (*Stats, *Violation) {
 	deadline := time.Now().Add(budget)
 	st := &Stats{Outcomes: map[string]int64{}, BoundCompleted: -1}
-	for i := range vs.Conflict {
-		vs.Conflict[i] = false
+	conflict := map[string]bool{}
+	cl := func() []string {
+		var l []string
+		for k := range conflict {
+			l = append(l, k)
+		}
+		sort.Strings(l)
+		return l
 	}
 	var viol *Violation
-	check := func(x *Exec) bool {
+	sawPreemptible := false
+	check := func(x *Exec) {
 		st.Executions++
-		st.DecisionPoints += int64(len(x.points))
-		for k, p := range x.points {
-			if len(p.enabled) > 1 {
+		st.DecisionPoints += int64(len(x.Pts))
+		for k, p := range x.Pts {
+			if p.N > 1 {
 				st.Branching++
 			}
-			if p.runEn && x.Choices[k] != 0 {
+			if p.RunEn && p.N > 1 {
+				sawPreemptible = true
+			}
+			if p.RunEn && x.Choices[k] != 0 {
 				st.Preemptive++
 			}
 		}
 		st.Outcomes[fmt.Sprint(x.Results)]++
 		why := ""
-		if x.Deadlock {
+		if x.Err != "" {
+			why = "execution failed: " + x.Err
+		} else if x.Deadlock {
 			why = "deadlock: no enabled thread"
 		} else if x.Horizon {
 			why = "horizon exceeded (livelock?)"
 		} else {
 			for t := range x.Results {
-				if x.Results[t] != expected[t] {
+				if t < len(expected) && x.Results[t] != expected[t] {
 					why = fmt.Sprintf("thread %d: result differs from the result of the same call run alone", t)
 					break
 				}
 			}
 		}
 		if why != "" && viol == nil {
-			viol = &Violation{Scenario: sc.Name, Choices: append([]int(nil), x.Choices...), Results: append([]string(nil), x.Results...), Expected: expected, Why: why}
+			viol = &Violation{Scenario: name, Choices: append([]int(nil), x.Choices...), Results: append([]string(nil), x.Results...), Expected: expected, Why: why, Conflict: cl()}
 		}
-		return why == ""
 	}
-	// conflict-set fix point
-	grow := func() bool {
+	grow := func(x *Exec) bool {
 		changed := false
-		n := len(sc.Bodies)
-		for id := 0; id < len(vs.VarNames) && id < vs.MaxVars; id++ {
-			if vs.Conflict[id] {
+		for v, bits := range x.Acc {
+			if conflict[v] {
 				continue
 			}
-			for a := 0; a < n && !vs.Conflict[id]; a++ {
-				for b := 0; b < n; b++ {
-					if a != b && vs.Acc[a][id]&2 != 0 && vs.Acc[b][id] != 0 {
-						vs.Conflict[id] = true
+			for a := range bits {
+				for b := range bits {
+					if a != b && bits[a]&2 != 0 && bits[b] != 0 && !conflict[v] {
+						conflict[v] = true
 						changed = true
-						break
 					}
 				}
 			}
@@ -225,29 +294,29 @@ func Explore(sc *Scenario, maxBound int, expected []string, maxExec int64, budge
 			st.Capped = true
 			return true
 		}
-		x := run(sc, prefix)
+		x := be(prefix, cl())
 		if Progress != nil {
 			Progress()
 		}
-		st.PointsSeen = vs.PointsSeen
-		if grow() {
+		st.PointsSeen = x.PointsSeen
+		if x.Err == "" && grow(x) {
 			return false // restart with the larger conflict set
 		}
 		check(x)
 		pre := x.preemptionsBefore(len(prefix))
-		for i := len(prefix); i < len(x.points); i++ {
-			p := x.points[i]
+		for i := len(prefix); i < len(x.Pts); i++ {
+			p := x.Pts[i]
 			cost := pre
-			if p.runEn && x.Choices[i] != 0 {
-				pre++ // the executed choice at i was itself a preemption (only inside the replayed prefix)
+			if p.RunEn && x.Choices[i] != 0 {
+				pre++
 			}
-			if p.runEn {
+			if p.RunEn {
 				cost++
 			}
 			if cost > bound {
 				continue
 			}
-			for alt := 1; alt < len(p.enabled); alt++ {
+			for alt := 1; alt < p.N; alt++ {
 				np := append(append([]int{}, x.Choices[:i]...), alt)
 				if !explore(np, bound) {
 					return false
@@ -257,17 +326,22 @@ func Explore(sc *Scenario, maxBound int, expected []string, maxExec int64, budge
 		return true
 	}
 	for b := 0; b <= maxBound && viol == nil; b++ {
+		if b > 0 && !sawPreemptible {
+			// no execution had a point at which the running thread could be preempted:
+			// higher bounds enumerate exactly the same schedules
+			st.BoundCompleted = maxBound
+			break
+		}
 		for {
-			// every bound re-explores from the empty prefix (iterative context bounding)
 			save := *st
 			if explore(nil, b) {
 				break
 			}
-			// conflict set grew: discard this pass
 			out := st.Outcomes
 			*st = save
 			st.Outcomes = out
 			st.Restarts++
+			sawPreemptible = false
 			if budget > 0 && time.Now().After(deadline) {
 				st.Capped = true
 				break
@@ -280,25 +354,9 @@ func Explore(sc *Scenario, maxBound int, expected []string, maxExec int64, budge
 			break
 		}
 	}
-	for id := 0; id < len(vs.VarNames) && id < vs.MaxVars; id++ {
-		if vs.Conflict[id] {
-			st.ConflictVars = append(st.ConflictVars, vs.VarNames[id])
-		}
-	}
+	st.ConflictVars = cl()
 	return st, viol
 }
 
 // Replay re-executes one recorded schedule and returns the observations.
-func Replay(sc *Scenario, choices []int, conflict []string) *Exec {
-	for i := range vs.Conflict {
-		vs.Conflict[i] = false
-	}
-	for _, name := range conflict {
-		for id, n := range vs.VarNames {
-			if n == name {
-				vs.Conflict[id] = true
-			}
-		}
-	}
-	return run(sc, choices)
-}
+func Replay(be Backend, choices []int, conflict []string) *Exec { return be(choices, conflict) }
